@@ -2,7 +2,7 @@
 From Coq Require Import Lia ZArith.
 From ChitchatModel Require Import Base SMap Ids Bytes Params NodeState Stream DeltaWire Message Cluster
   FD Chitchat SMap_lemmas Cluster_lemmas Chitchat_lemmas FD_lemmas Inv Compute_lemmas NodeInv
-  Prefix_lemmas Liveness_lemmas World Truth NodeTruth Weak Reach ReachFD Revive MemInv ReachMem.
+  Prefix_lemmas Liveness_lemmas World Truth NodeTruth Weak Reach ReachFD Revive MemInv ReachMem FdKnown GuardsGen GuardTie.
 
 (* one classification step: the detector's sets stay disjoint (and sorted), the member is put in
    exactly one of them, nobody else moves, and a member already dead keeps the instant of the
@@ -138,3 +138,39 @@ Theorem C12_memory_never_lists_a_held_member : forall zc,
     forall i c, nm_get i (cs_nodes (nd_cs n)) = Some c -> last_heartbeat_if_deleted (nd_cs n) i = None.
 Proof. exact reachable_mem. Qed.
 Print Assumptions C12_memory_never_lists_a_held_member.
+
+(* "then removed": in every reachable state, on every node, the failure detector holds no state
+   about a member the node holds no copy of — a member removed at the end of its grace period (or
+   never known) is not live, not dead and owns no sampling window; whatever is said about it later
+   starts from nothing (with C11_first_value_is_not_evidence: one report is no evidence). *)
+Theorem C12_detector_forgets_removed_members : forall zc,
+  (forall b c, zc b = Some c -> len c <= len b) -> forall strict g, reachable zc strict g ->
+  forall a n i, node_at g a = Some n -> nm_get i (cs_nodes (nd_cs n)) = None ->
+    is_mem i (fd_live (nd_fd n)) = false /\ dm_get i (fd_dead (nd_fd n)) = None /\
+    wm_get i (fd_samples (nd_fd n)) = None.
+Proof.
+  intros zc zc_len strict g Hr a n i Hn Hnone.
+  destruct (reachable_fd_known zc zc_len strict g Hr a n Hn) as [_ Hk].
+  assert (Hnm : ~ mentions (nd_fd n) i) by (intros Hm; apply (Hk i Hm); exact Hnone).
+  split; [|split].
+  - destruct (is_mem i (fd_live (nd_fd n))) eqn:E; [exfalso; apply Hnm; left; exact E|reflexivity].
+  - destruct (dm_get i (fd_dead (nd_fd n))) eqn:E; [exfalso; apply Hnm; right; left; rewrite E; discriminate|reflexivity].
+  - destruct (wm_get i (fd_samples (nd_fd n))) eqn:E; [exfalso; apply Hnm; right; right; rewrite E; discriminate|reflexivity].
+Qed.
+Print Assumptions C12_detector_forgets_removed_members.
+
+(* ---- the tie of the decision guards to the sources (GuardTie.v; see C14.v for the scheme):
+   the model function is the decision tree over the model's guards g_x, and each g_x cuts its
+   operands' space along the same boundary as rs_x, the translation of today's Rust expression
+   (regenerated on every run by tools/guards.py).  A source change that moves a boundary breaks
+   this theorem on the next run. ---- *)
+Theorem C12_removal_guards_are_the_source_guards :
+  (forall cfg now f, snd (fd_garbage_collect cfg now f) = map fst (filter (fun e => g_fd_gc now (snd e) (dead_grace cfg)) (fd_dead f))) /\
+  (forall cfg now f, fd_scheduled_for_deletion cfg now f = map fst (filter (fun e => g_fd_sched now (snd e) (half_grace cfg)) (fd_dead f))) /\
+  ((forall now tod grace, rs_fd_gc now tod grace = g_fd_gc now tod grace) \/
+   (forall now tod grace, rs_fd_gc now tod grace = negb (g_fd_gc now tod grace))) /\
+  ((forall now tod half, rs_fd_sched now tod half = g_fd_sched now tod half) \/
+   (forall now tod half, rs_fd_sched now tod half = negb (g_fd_sched now tod half))) /\
+  ((forall last hb, rs_recreate last hb = g_recreate last hb) \/ (forall last hb, rs_recreate last hb = negb (g_recreate last hb))).
+Proof. exact (conj fd_collects_by_the_guard (conj fd_schedules_by_the_guard (conj tie_fd_gc (conj tie_fd_sched tie_recreate)))). Qed.
+Print Assumptions C12_removal_guards_are_the_source_guards.
